@@ -1,5 +1,6 @@
 """C15 - capacity arithmetic and comparison obey their algebraic laws."""
 from ..core import Report
+from .. import tlc
 from . import value_common as vc
 
 MC = """SPECIFICATION Spec
@@ -29,6 +30,16 @@ def run(tier, seed):
     fam = "small" if quick else "cube"
     rep.add_mc("MC_FimCapacity laws+ledger", vc.run_tlc_cfg("MC_FimCapacity", MC, {"MaxDepth": 4 if quick else 5, "Family": fam}),
                {"Family": fam})
+    # the same laws for ALL integer vectors, and one arbitrary ledger step (SMT, Apalache; FimCapacityAlgebra is shared)
+    apa = tlc.run_apalache("APA_FimCapacity", "Inv", length=1)
+    rep.extra.setdefault("symbolic_runs", []).append(apa)
+    if apa["outcome"] != "NoError":
+        rep.spec_violations.append({"run": "APA_FimCapacity Inv", "violation": "Inv", "trace": apa["cmd"]})
+    if not quick:
+        probe = tlc.run_apalache("APA_FimCapacity", "Probe_FitsIsTotal", length=0)
+        rep.extra["symbolic_runs"].append(probe)
+        if probe["outcome"] != "Error":
+            raise tlc.TLCError("non-vacuity probe failed: Apalache found no two incomparable capacity vectors")
     scripts = vc.gen_scripts(rep, "Gen_FimCapacity", "MC_FimCapacity", GEN, {"MaxDepth": 4 if quick else 5, "Family": fam},
                              max_obs=600)
     # scales: plain, 10^6, 2^40 (arithmetic commutes with scaling; the recorder divides the results back)
